@@ -1,4 +1,6 @@
 import DosModel.Model.Events
+import DosModel.Model.EventAbi
+import DosModel.Model.Keccak
 import DosModel.Gen.EventTable
 /-!
 Line-protocol driver for C18 (grammar: go/props/c18/c18.go).
@@ -9,9 +11,13 @@ Line-protocol driver for C18 (grammar: go/props/c18/c18.go).
                              real adaptor: delivered node events are rendered through the REGENERATED
                              subscription table (Gen.EventTable), the delivered set is the fold over the
                              emitted items
+  al <idx> v <v1;v2;…>       ABI layer, well-formed: the log the contract emits for these argument values
+                             (MODEL encoding: topic0 by the Lean Keccak-256, data = Abi.encodeRaw) and what the
+                             binding + table entry make of it (Abi.decodeLog, then the regenerated table)
+  al <idx> r <topics> <data> ABI layer, arbitrary raw log (malformed ones): Abi.decodeLog outcome ok … | err | panic
 -/
 namespace Dos.C18Drv
-open Dos Dos.Events Dos.Gen.EventTable
+open Dos Dos.Events Dos.Gen.EventTable Dos.Abi Dos.EventAbi
 
 def runItems (xs : List DItem) : List String := firstEvent (fun b => b) xs
 
@@ -47,6 +53,30 @@ def renderLog (t : Nat) (vals : List String) : String :=
         f.1 ++ "=" ++ v)
       e.target ++ "{" ++ String.intercalate ";" parts ++ "}"
     | _, _ => s!"?no-struct-{t}"
+
+/-- render what the table entry of index `t` delivers when the binding struct was filled with `vals`
+(`none`: the field kept its Go zero value) -/
+def renderDecoded (ev : Ev) (vals : List (Option AbiVal)) : String :=
+  match entries.find? (fun e => e.index == ev.index) with
+  | none => s!"?no-entry-{ev.index}"
+  | some e =>
+    match bindingStructs.find? (fun s => s.name == e.binding) with
+    | none => s!"?no-struct-{ev.index}"
+    | some b =>
+      let btys := (b.fields.filter (fun f => f.1 != "Raw")).map (·.2)
+      let texts := (List.range vals.length).map (fun k =>
+        match vals[k]?, ev.spec.inputs[k]? with
+        | some (some v), some i => showVal i.ty v
+        | _, _ => zeroText (btys.getD k "?"))
+      renderLog ev.index texts
+
+def showTopics (ts : List Bytes) : String :=
+  if ts.isEmpty then "-" else String.intercalate "," (ts.map toHex)
+
+def showRes (ev : Ev) : Dec (List (Option AbiVal)) → String
+  | .ok vals => "ok " ++ renderDecoded ev vals
+  | .error .err => "err"
+  | .error (.panic _) => "panic"
 
 structure HLog where
   t : Nat
@@ -100,6 +130,21 @@ def step (line : String) : String :=
           | some src => ev src
           | none => "?unset"
         s!"Tx={fld "Tx"} BlockN={fld "BlockN"} Removed={fld "Removed"} Raw={fld "Raw"}"
+  | ["al", idx, "v", vals] =>
+    match idx.toNat? >>= eventOf with
+    | none => "bad-op"
+    | some ev =>
+      match parseVals ev.spec.types (if ev.spec.inputs.isEmpty then [] else vals.splitOn ";") with
+      | none => "bad-op"
+      | some vs =>
+        let l := emit Keccak.keccak256 ev vs
+        s!"log={showTopics l.topics}/{dataText l.data} res={showRes ev (receive Keccak.keccak256 ev l)}"
+  | ["al", idx, "r", topics, data] =>
+    match idx.toNat? >>= eventOf, (if topics == "-" then some [] else (topics.splitOn ",").mapM ofHex), ofHex data with
+    | some ev, some ts, some d =>
+      let l : RawLog := { topics := ts, data := d }
+      s!"log={showTopics l.topics}/{dataText l.data} res={showRes ev (receive Keccak.keccak256 ev l)}"
+    | _, _, _ => "bad-op"
   | "sub" :: _ :: types :: hs :: ss :: drop :: rest =>
     let H? := if hs == "-" then some [] else (hs.splitOn "|").mapM parseHLog
     match H?, csvNat types with
